@@ -5,6 +5,7 @@
 #include <stddef.h>
 #include "jls/format.h"
 #include "bk_model.h"
+#include "raw_wf.h"
 
 /* format.h: a chunk payload is followed by zero padding and a CRC so that the next header is 8-byte aligned */
 static inline uint32_t vg_disk_size(uint32_t n) { return n ? ((n + 4u + 7u) & ~7u) : 0u; }
@@ -18,11 +19,7 @@ uint32_t vg_hcrc_of(const struct jls_chunk_header_s * h);
 
 extern uint32_t vg_k;                  /* skolem witness: an arbitrary payload byte index */
 /* ghost captures on entry */
-extern int64_t vg_fpos0, vg_fend0, vg_offset0;
-extern uint8_t vg_cell0;
-extern uint32_t vg_last0;
-extern uint64_t vg_nwr0, vg_nip0;
-extern struct jls_chunk_header_s vg_hdr0;
+extern uint32_t vg_k2;                 /* second skolem witness index */
 
 /* little-endian image of a header field byte k (0..31), written from format.h: item_next, item_prev, tag, rsv, chunk_meta,
  * payload_length, payload_prev_length, crc32 */
